@@ -92,3 +92,39 @@ Example C18_example :
   run_func no_engines "Right" [RNum (mkDec 2 0)] (VStr false (bs "hello")) = Ok (VStr false (bs "lo")) /\
   run_func no_engines "TrimRight" [RNum (mkDec 1 1)] (VStr false (bs "hello")) = Ok (VStr false []).
 Proof. vm_compute. repeat split. Qed.
+
+(** End to end (Proofs/E2E.v): the same statements for whole queries `$.a.F(args)`
+    evaluated on documents (maps with any key type, or structs) whose fields
+    are ANY Go carriers of the numbers / plain strings involved, with every
+    argument supplied as a literal or as a path `$.b` into the document;
+    [param_denotes] says what an argument resolves to, [obj_row] what a key
+    holds, [decides o P]: o is a boolean that is true exactly when P. *)
+From Coq Require Import QArith Qabs.
+From Mpath.Generated Require Import FuncTable.
+From Mpath.Proofs Require C06 C06b E2E.
+Import Mpath.Proofs.C06 Mpath.Proofs.C06b Mpath.Proofs.E2E.
+
+Theorem C18_E2E_substring :
+  forall (uni : Lexer.uclass) (eng : engines) (fuel : nat) (inv me q : bool) (u1 u2 u3 : str) (finv : bool) (cur : gv) (a : str) (p : Ast.param) (doc : gv) (s n : str), obj_row a doc (VStr false s) -> dec_of_string s = None -> param_denotes doc p (RStr n) -> Eval.eval uni eng (S (S (S (S (S fuel))))) (Eval.NPath (call_path inv me a q u1 finv "Contains" [p] u2 u3)) cur doc = Ok (vbool (contains s n)) /\ Eval.eval uni eng (S (S (S (S (S fuel))))) (Eval.NPath (call_path inv me a q u1 finv "NotContains" [p] u2 u3)) cur doc = Ok (vbool (negb (contains s n))) /\ Eval.eval uni eng (S (S (S (S (S fuel))))) (Eval.NPath (call_path inv me a q u1 finv "Prefix" [p] u2 u3)) cur doc = Ok (vbool (has_prefix s n)) /\ Eval.eval uni eng (S (S (S (S (S fuel))))) (Eval.NPath (call_path inv me a q u1 finv "NotPrefix" [p] u2 u3)) cur doc = Ok (vbool (negb (has_prefix s n))) /\ Eval.eval uni eng (S (S (S (S (S fuel))))) (Eval.NPath (call_path inv me a q u1 finv "Suffix" [p] u2 u3)) cur doc = Ok (vbool (has_suffix s n)) /\ Eval.eval uni eng (S (S (S (S (S fuel))))) (Eval.NPath (call_path inv me a q u1 finv "NotSuffix" [p] u2 u3)) cur doc = Ok (vbool (negb (has_suffix s n))).
+Proof. exact Mpath.Proofs.E2E.E2E_substring. Qed.
+Print Assumptions C18_E2E_substring.
+
+Theorem C18_E2E_substring_path :
+  forall (uni : Lexer.uclass) (eng : engines) (fuel : nat) (inv me q : bool) (u1 u2 u3 : str) (finv : bool) (cur : gv) (pinv pme pq : bool) (pu pus a b : str) (doc : gv) (s n : str), obj_row a doc (VStr false s) -> dec_of_string s = None -> obj_row b doc (VStr false n) -> Eval.eval uni eng (S (S (S (S (S fuel))))) (Eval.NPath (call_path inv me a q u1 finv "Contains" [Ast.FPPath (key_path pinv pme b pq pu pus)] u2 u3)) cur doc = Ok (vbool (contains s n)) /\ Eval.eval uni eng (S (S (S (S (S fuel))))) (Eval.NPath (call_path inv me a q u1 finv "NotContains" [Ast.FPPath (key_path pinv pme b pq pu pus)] u2 u3)) cur doc = Ok (vbool (negb (contains s n))) /\ Eval.eval uni eng (S (S (S (S (S fuel))))) (Eval.NPath (call_path inv me a q u1 finv "Prefix" [Ast.FPPath (key_path pinv pme b pq pu pus)] u2 u3)) cur doc = Ok (vbool (has_prefix s n)) /\ Eval.eval uni eng (S (S (S (S (S fuel))))) (Eval.NPath (call_path inv me a q u1 finv "NotPrefix" [Ast.FPPath (key_path pinv pme b pq pu pus)] u2 u3)) cur doc = Ok (vbool (negb (has_prefix s n))) /\ Eval.eval uni eng (S (S (S (S (S fuel))))) (Eval.NPath (call_path inv me a q u1 finv "Suffix" [Ast.FPPath (key_path pinv pme b pq pu pus)] u2 u3)) cur doc = Ok (vbool (has_suffix s n)) /\ Eval.eval uni eng (S (S (S (S (S fuel))))) (Eval.NPath (call_path inv me a q u1 finv "NotSuffix" [Ast.FPPath (key_path pinv pme b pq pu pus)] u2 u3)) cur doc = Ok (vbool (negb (has_suffix s n))).
+Proof. exact Mpath.Proofs.E2E.E2E_substring_path. Qed.
+Print Assumptions C18_E2E_substring_path.
+
+Theorem C18_E2E_replace_all :
+  forall (uni : Lexer.uclass) (eng : engines) (fuel : nat) (inv me q : bool) (u1 u2 u3 : str) (finv : bool) (cur : gv) (a : str) (pf pr : Ast.param) (doc : gv) (s f r : str), obj_row a doc (VStr false s) -> dec_of_string s = None -> param_denotes doc pf (RStr f) -> param_denotes doc pr (RStr r) -> f <> [] -> Eval.eval uni eng (S (S (S (S (S fuel))))) (Eval.NPath (call_path inv me a q u1 finv "ReplaceAll" [pf; pr] u2 u3)) cur doc = Ok (VStr false (replace_all s f r)).
+Proof. exact Mpath.Proofs.E2E.E2E_replace_all. Qed.
+Print Assumptions C18_E2E_replace_all.
+
+Theorem C18_E2E_replace_all_four_ways :
+  forall (uni : Lexer.uclass) (eng : engines) (fuel : nat) (inv me q : bool) (u1 u2 u3 : str) (finv : bool) (cur : gv) (pinv pme pq : bool) (pu pus : str) (rinv rme rq : bool) (ru rus a kf kr : str) (doc : gv) (s f r : str), obj_row a doc (VStr false s) -> dec_of_string s = None -> obj_row kf doc (VStr false f) -> obj_row kr doc (VStr false r) -> f <> [] -> Eval.eval uni eng (S (S (S (S (S fuel))))) (Eval.NPath (call_path inv me a q u1 finv "ReplaceAll" [Ast.FPStr f; Ast.FPStr r] u2 u3)) cur doc = Ok (VStr false (replace_all s f r)) /\ Eval.eval uni eng (S (S (S (S (S fuel))))) (Eval.NPath (call_path inv me a q u1 finv "ReplaceAll" [Ast.FPStr f; Ast.FPPath (key_path rinv rme kr rq ru rus)] u2 u3)) cur doc = Ok (VStr false (replace_all s f r)) /\ Eval.eval uni eng (S (S (S (S (S fuel))))) (Eval.NPath (call_path inv me a q u1 finv "ReplaceAll" [Ast.FPPath (key_path pinv pme kf pq pu pus); Ast.FPStr r] u2 u3)) cur doc = Ok (VStr false (replace_all s f r)) /\ Eval.eval uni eng (S (S (S (S (S fuel))))) (Eval.NPath (call_path inv me a q u1 finv "ReplaceAll" [Ast.FPPath (key_path pinv pme kf pq pu pus); Ast.FPPath (key_path rinv rme kr rq ru rus)] u2 u3)) cur doc = Ok (VStr false (replace_all s f r)).
+Proof. exact Mpath.Proofs.E2E.E2E_replace_all_four_ways. Qed.
+Print Assumptions C18_E2E_replace_all_four_ways.
+
+Theorem C18_E2E_call_on_string :
+  forall (uni : Lexer.uclass) (eng : engines) (fuel : nat) (inv me : bool) (a : str) (q : bool) (u1 u2 u3 : str) (finv : bool) (name : string) (ps : list Ast.param) (rs : list rparam) (cur doc : gv) (s : str), obj_row a doc (VStr false s) -> dec_of_string s = None -> Forall2 (param_denotes doc) ps rs -> plain_function name = true -> Eval.eval uni eng (S (S (S (S (S fuel))))) (Eval.NPath (call_path inv me a q u1 finv name ps u2 u3)) cur doc = run_func eng name rs (VStr false s).
+Proof. exact Mpath.Proofs.E2E.E2E_call_on_string. Qed.
+Print Assumptions C18_E2E_call_on_string.
